@@ -122,9 +122,44 @@ func ticksOut(s scale.Quantitative, tk scale.Ticker, o scale.TickOptions, guess 
 	return fmt.Sprintf("%s %s %s %s %s", lv, fmtFs(major), fmtFs(minor), fmtInts(cnt), fmtInts(lens))
 }
 
+// hasPast decides, from the case itself, whether the scale value is given a history first.
+func hasPast(min float64) bool { return math.Float64bits(min)%3 != 0 }
+
+func finite(xs ...float64) bool {
+	for _, x := range xs {
+		if math.IsNaN(x) || math.IsInf(x, 0) {
+			return false
+		}
+	}
+	return true
+}
+
+// withPast uses a scale on another domain (Nice and Ticks with the same options) and swallows
+// whatever that does; the caller then assigns the exported fields for the case proper.
+func withPast(s scale.Quantitative, o scale.TickOptions) {
+	defer func() { recover() }()
+	switch t := s.(type) {
+	case *scale.Linear:
+		if !finite(t.Min, t.Max) || math.Abs(t.Max-t.Min) < 1 {
+			return
+		}
+	case *scale.Log:
+		if !finite(t.Min, t.Max) || !(t.Min > 0 && t.Max > 0) && !(t.Min < 0 && t.Max < 0) {
+			return
+		}
+	}
+	s.Nice(o)
+	s.Ticks(o)
+}
+
 func execLinTicks(a []Tok) string {
 	s := scale.Linear{Min: a[0].F(), Max: a[1].F(), Base: a[2].Int()}
 	o := tickOpts(a)
+	if hasPast(s.Min) {
+		s.Min, s.Max = s.Min*128-7, s.Max*128+9
+		withPast(&s, o)
+		s.Min, s.Max = a[0].F(), a[1].F()
+	}
 	t := s
 	if t.Min > t.Max {
 		t.Min, t.Max = t.Max, t.Min
@@ -151,11 +186,21 @@ func niceOut(s scale.Quantitative, o scale.TickOptions, get func() (float64, flo
 
 func execLinNice(a []Tok) string {
 	s := &scale.Linear{Min: a[0].F(), Max: a[1].F(), Base: a[2].Int()}
+	if hasPast(s.Min) {
+		s.Min, s.Max = s.Min*128-7, s.Max*128+9
+		withPast(s, tickOpts(a))
+		s.Min, s.Max = a[0].F(), a[1].F()
+	}
 	return niceOut(s, tickOpts(a), func() (float64, float64) { return s.Min, s.Max })
 }
 
 func execLogTicks(a []Tok) string {
 	s := scale.Log{Min: a[0].F(), Max: a[1].F(), Base: a[2].Int()}
+	if hasPast(s.Min) {
+		s.Min, s.Max = s.Min/1e6, s.Max*1e9
+		withPast(&s, tickOpts(a))
+		s.Min, s.Max = a[0].F(), a[1].F()
+	}
 	return ticksOut(&s, &s, tickOpts(a), rand.Intn(7)-3)
 }
 
